@@ -6,7 +6,7 @@ from props.c10 import _addr
 import refbech32
 
 PID = "C11"
-THEOREMS = ['C11_convertbits_roundtrip', 'C11_polymod_linear', 'C11_checksum_verifies', 'C11_detects_4_substitutions', 'C11_distance_tight', 'C11_decode_encode', 'C11_segwit_roundtrip', 'C11_objects', 'C11_objects_total']
+THEOREMS = ['C11_convertbits_roundtrip', 'C11_polymod_linear', 'C11_checksum_verifies', 'C11_detects_4_substitutions', 'C11_decoder_detects_4_substitutions', 'C11_distance_tight', 'C11_decode_encode', 'C11_segwit_roundtrip', 'C11_objects', 'C11_objects_total']
 TECHNIQUE = "Coq proof (bit-regrouping round-trip, XOR-linearity of the checksum step, created checksum verifies, 1..4 substituted symbols in a data part of up to 89 symbols are always detected, decode(encode) for every program and HRP) + extracted-model correspondence with an independent BIP173/BIP350 reference and rejection streams"
 RULE = ("20- and 32-byte programs, versions 0 and 1, four networks, each of P2WPKH/P2WSH/P2TR re-created from its own string and program; the same "
         "program encoded under every network in sequence in one process; rejection: 1..4 substituted characters sampled over positions and symbols "
